@@ -386,3 +386,6 @@ def run(chk, replay):
         # Reader!ReadSpec in OpTrace.tla
         from harness import optrace
         optrace.phase(chk, ["read"], "indexing interface on large inputs", 60, 600, assets=["example_plt_3d", "example_plt_2d"], nops=8)
+        # headers with repeated names and names that look like generated keys (FieldKeys.tla): every key reads its own component
+        from harness import keys
+        keys.phase(chk, "read")
